@@ -22,7 +22,7 @@ let parse_kind = function
   | "d" -> Distribution | "s" -> SetK | k -> failwith ("bad kind " ^ k)
 
 let parse_arg s =
-  if s = "incr" then AI64 (z_of_dec "1") else if s = "decr" then AI64 (z_of_dec "-1") else
+  if s = "incr" then incr_arg else if s = "decr" then decr_arg else
   let (ty, v) = split2 ':' s in
   match ty with
   | "i64" -> AI64 (z_of_dec v) | "i32" -> AI32 (z_of_dec v)
